@@ -2,15 +2,16 @@
 # mut.sh <repo-rel-file> <python-regex-from> <to> <property> [extra check args]: apply ONE textual edit to /repo (first match),
 # run the property's check without evidence, undo.  Development aid for breaking-edit suites; never leaves /repo modified.
 f=$1; from=$2; to=$3; p=$4; shift 4
-cd /repo && git diff --quiet || { echo "/repo not clean"; exit 3; }
-python3 - "$f" "$from" "$to" <<'PY' || { git -C /repo checkout -- .; exit 3; }
+R=${MUT_REPO:-/repo}   # MUT_REPO=<scratch worktree> to leave /repo alone (units that #[path]-include real files always read /repo)
+cd $R && git diff --quiet || { echo "$R not clean"; exit 3; }
+python3 - "$R/$f" "$from" "$to" <<'PY' || { git -C $R checkout -- .; exit 3; }
 import re,sys
 f,a,b=sys.argv[1:4]
-s=open('/repo/'+f).read()
+s=open(f).read()
 n,c=re.subn(a,b,s,count=1,flags=re.S)
 if c!=1: print("mut: pattern not found"); sys.exit(1)
-open('/repo/'+f,'w').write(n)
+open(f,'w').write(n)
 PY
-git -C /repo diff --stat | tail -1
-cd /verif && ./check $p --no-evidence "$@" 2>&1 | grep -E 'VIOLATION|UNDECIDED|^OK|failed obligation|KNOWN' | cut -c1-400; 
-git -C /repo checkout -- .
+git -C $R diff --stat | tail -1
+cd /verif && VERIF_REPO=$R ./check $p --no-evidence "$@" 2>&1 | grep -E 'VIOLATION|UNDECIDED|^OK|failed obligation|KNOWN' | cut -c1-400; 
+git -C $R checkout -- .
